@@ -7,11 +7,13 @@ props = [json.loads(l) for l in open("properties.jsonl")]
 ids = [p["id"] for p in props]
 na = json.load(open("tools/not_applicable.json"))
 checks, claimed = [], set()
+approved = set(open("tools/claimed.txt").read().split())
 for pid in ids:
     f = f"harness/props/{pid.lower()}.py"
     if not os.path.exists(f): continue
     mod = importlib.import_module("harness.props." + pid.lower())
     if getattr(mod, "DISABLED", False): continue
+    if pid not in approved: continue  # the coordinator approves a check after running it on the unchanged tree
     claimed.add(pid)
     checks.append({
         "property_id": pid,
